@@ -122,6 +122,269 @@ def show_step(step):
   return f"root{step['at'][0]}{step['at'][1]}.{step['op']}({args}){sc}"
 
 
+# ------------------------------------------------------ hostile keys --------
+# Legal keys of an untyped pg.Dict that a printed path cannot tell apart from
+# another position, or that print as nothing / like an index / like a nested
+# path. `values.key` never produces them; they are part of the key alphabet of
+# C01 (forest, operands and written keys), at the root and nested.
+
+HOSTILE_KEYS = ['', '', ' ', '0', '1', '-1', 'a.b', 'a.b.c', 'k.a', '[0]', '[1]',
+                'a[0]', '[a]', '.', '..', '[', ']', '[]', 'a.', '.a', ' a',
+                'x y', '\n', '\u00e9', "'", '"', '$', '*', 'None', 'a/b',
+                0, 1, -1]
+
+
+def _render(keys):
+  try:
+    return str(pg.KeyPath(list(keys)))
+  except Exception:  # pylint: disable=broad-except
+    return None
+
+
+def lookalike_keys(member_keys, below):
+  """Keys that print like something else that exists next to / below the
+  container: the text of a relative path of a descendant ('a.b', 'a[0]',
+  '[0]'), an int sibling as text and a numeric text sibling as int.
+
+  member_keys: keys of the container; below: iterable of relative key lists
+  (length >= 1) of positions below the container."""
+  out = []
+  for k in member_keys:
+    if isinstance(k, int) and not isinstance(k, bool):
+      out += [str(k), f'[{k}]']
+    elif isinstance(k, str):
+      if k.lstrip('-').isdigit():
+        out.append(int(k))
+      out += [k + '.', '.' + k, k + ' ', f'[{k}]']
+  for rel in below:
+    r = _render(rel)
+    if r is not None:
+      out.append(r)
+      if len(rel) > 1:
+        out.append(_render(rel[1:]))
+  return [k for k in out if k is not None and k not in member_keys]
+
+
+def live_lookalikes(node, limit=12):
+  """`lookalike_keys` for a live pg.Dict (two levels of descendants, and the
+  printed paths of the positions around it)."""
+  keys = list(node.sym_keys())
+  below = []
+  for k in keys[:limit]:
+    below.append([k])
+    c = node.sym_getattr(k)
+    if isinstance(c, pg.Symbolic) and not isinstance(c, pg.Ref):
+      for k2 in list(c.sym_keys())[:4]:
+        below.append([k, k2])
+  out = lookalike_keys(keys, below)
+  par = node.sym_parent
+  if par is not None and not isinstance(par, pg.Ref):
+    # what a sibling / the container itself is called from the root
+    out.append(str(node.sym_path))
+    for k in list(par.sym_keys())[:4]:
+      out.append(k if isinstance(k, str) else f'[{k}]')
+  return [k for k in out if k not in keys]
+
+
+def hostile_key(rng, lookalikes=()):
+  if lookalikes and rng.random() < 0.4:
+    return rng.choice(list(lookalikes))
+  return rng.choice(HOSTILE_KEYS)
+
+
+def accepts_any_key(node):
+  """An untyped pg.Dict, or one bound to a dict spec without a schema."""
+  if not isinstance(node, pg.Dict):
+    return False
+  vs = node.value_spec
+  return vs is None or (isinstance(vs, pg.typing.Dict) and vs.schema is None)
+
+
+def hostilize_desc(rng, desc, p=0.25):
+  """Rewrites (in place) keys of the untyped dict descriptions at / below
+  `desc` into hostile ones, each with probability p. Returns their number."""
+  n = 0
+  if desc[0] == 'same':
+    return hostilize_desc(rng, desc[2], p)
+  b = inner(desc)
+  mem, paired = members(b)
+  if mem is None or not open_container(b):
+    return 0                      # typed containers: members stay as generated
+  if b[0] in ('D', 'd'):
+    keys = [k for k, _ in mem]
+    below = []
+    for k, sub in mem:
+      m2, p2 = members(inner(sub))
+      if m2 is not None:
+        below += [[k, (e[0] if p2 else i)] for i, e in enumerate(m2[:3])]
+    look = lookalike_keys(keys, below)
+    for e in mem:
+      if rng.random() < p:
+        nk = hostile_key(rng, look)
+        if nk not in keys:
+          keys[keys.index(e[0])] = nk
+          e[0] = nk
+          n += 1
+  for e in mem:
+    n += hostilize_desc(rng, e[1] if paired else e, p)
+  if n and desc[0] == 'ctor' and desc[1] in ('kwargs', 'dict+kwargs') and b[0] == 'D':
+    if not all(isinstance(k, str) and k.isidentifier() for k, _ in mem):
+      desc[1] = 'dict'
+  return n
+
+
+def hostilize_args(rng, node, opname, args, p=0.6):
+  """Rewrites (in place) the NEW keys that a generated call writes into
+  untyped dicts into hostile ones (each with probability p); keys that exist
+  are chosen by the operation table from the live dict already. Returns the
+  number of rewritten keys."""
+  n = 0
+  def new_key(d, k, taken=()):
+    if not accepts_any_key(d) or d.sym_hasattr(k) or rng.random() >= p:
+      return k
+    nk = hostile_key(rng, live_lookalikes(d))
+    return k if (nk in taken or d.sym_hasattr(nk) and rng.random() < 0.5) else nk
+  try:
+    if opname in ('Dict.__setitem__', 'Dict.setdefault', 'Dict.pop',
+                  'Dict.__delitem__') and 'k' in args:
+      k = new_key(node, args['k'])
+      n += k != args['k'] or type(k) is not type(args['k'])
+      args['k'] = k
+    elif opname in ('Dict.update', 'Dict.__ior__', 'Dict.__or__'):
+      for it in args['items']:
+        k = new_key(node, it[0], [i[0] for i in args['items']])
+        n += k != it[0]
+        it[0] = k
+      if args.get('form') in ('kwargs', 'dict+kwargs') and not all(
+          isinstance(k, str) and k.isidentifier() for k, _ in args['items']):
+        args['form'] = 'dict'
+    elif opname == 'rebind':
+      for up in args['updates']:
+        rel = up[0]
+        k = new_key(O.node_at(node, rel[:-1]), rel[-1])
+        if k != rel[-1] and not any(u[0] == rel[:-1] + [k] for u in args['updates']):
+          up[0] = rel[:-1] + [k]
+          n += 1
+      if args.get('form') == 'kwargs' and not all(
+          isinstance(r[0], str) and r[0].isidentifier() for r, _ in args['updates']):
+        args['form'] = 'dict'
+    elif opname == 'clone[override]':
+      rel = args['rel']
+      k = new_key(O.node_at(node, rel[:-1]), rel[-1])
+      n += k != rel[-1]
+      args['rel'] = rel[:-1] + [k]
+  except Exception:  # pylint: disable=broad-except
+    return n
+  return n
+
+
+# ------------------------------------- pre-built values for typed slots -----
+
+def symbolize(rng, v, p=0.7, top=True):
+  """The description of a plain nested value in which dicts / lists are
+  PRE-BUILT pg.Dict / pg.List (the outermost one always, inner ones with
+  probability p)."""
+  sym = top or rng.random() < p
+  if isinstance(v, dict) and all(isinstance(k, (str, int)) for k in v):
+    return ['D' if sym else 'd',
+            [[k, symbolize(rng, x, p, False)] for k, x in v.items()]]
+  if isinstance(v, list):
+    return ['L' if sym else 'l', [symbolize(rng, x, p, False) for x in v]]
+  return ['v', v]
+
+
+def corrupt(rng, spec, v):
+  """A copy of the plain value `v` (valid for `spec`) in which ONE member at
+  some depth is replaced by a value its own spec rejects; None if there is no
+  such member. Uses public attributes of the spec only."""
+  T = pg.typing
+  def bad_for(s):
+    if isinstance(s, T.Any):
+      return None
+    b = V.invalid_for(s, rng)
+    return None if V._accepts(s, b) else [b]   # pylint: disable=protected-access
+  if isinstance(spec, T.Dict) and spec.schema is not None and isinstance(v, dict):
+    fields = [(str(k), f.value) for k, f in spec.schema.fields.items()
+              if isinstance(k, T.ConstStrKey) and not f.value.frozen]
+    rng.shuffle(fields)
+    for name, fs in fields:
+      if isinstance(v.get(name), (dict, list)) and rng.random() < 0.6:
+        c = corrupt(rng, fs, v[name])
+        if c is not None:
+          return dict(v, **{name: c})
+    for name, fs in fields:
+      b = bad_for(fs)
+      if b is not None:
+        return dict(v, **{name: b[0]})
+    return None
+  if isinstance(spec, T.List) and isinstance(v, list) and v:
+    i = rng.randrange(len(v))
+    es = spec.element.value
+    c = corrupt(rng, es, v[i]) if isinstance(v[i], (dict, list)) else None
+    if c is None:
+      b = bad_for(es)
+      if b is None:
+        return None
+      c = b[0]
+    return v[:i] + [c] + v[i + 1:]
+  return None
+
+
+# ------------------------------------------------- offered operands ---------
+
+def note_symbolic(value, out):
+  """Appends the outermost symbolic objects of an operand value (looking
+  through plain containers and pg.Insertion) to `out`."""
+  if isinstance(value, pg.Symbolic):
+    out.append(value)
+  elif isinstance(value, dict):
+    for v in value.values():
+      note_symbolic(v, out)
+  elif isinstance(value, (list, tuple)):
+    for v in value:
+      note_symbolic(v, out)
+  elif isinstance(value, pg.Insertion):
+    note_symbolic(value.value, out)
+
+
+def operand_problems(forest, operands, counters=None):
+  """The property, applied to the objects a caller handed to a call.
+
+  An operand that the call did not store in the forest (or that is itself a
+  root of the forest) is still held by the caller. When it reports no parent it is a root: its path must be empty, and
+  everything below it must be addressed relative to it (`tree_ok`). When it
+  reports a parent, that parent must really store it (no dangling claim); the
+  shape of a container the caller never saw (a converted plain dict/list that
+  adopted the operand and was discarded) is not judged.
+
+  Returns [(clause, detail)]; the clauses of `tree_ok` prefixed 'operand-'."""
+  out, done, reach = [], set(), None
+  for x in operands:
+    if id(x) in done:
+      continue
+    done.add(id(x))
+    if reach is None:
+      reach = {id(n) for _, _, n in H.all_nodes(forest)}
+      reach -= {id(r) for r in forest if isinstance(r, pg.Symbolic)}
+    if id(x) in reach:
+      continue                    # stored below a root of the forest
+    if counters is not None:
+      counters['operand_checks'] += 1
+    par = x.sym_parent
+    if par is not None:
+      if not any(c is x for _, c in TM.children(par)):
+        out.append(('operand-dangling-claim',
+                    f'offered {type(x).__name__} is not stored in the forest but '
+                    f'reports the parent {type(par).__name__} (path '
+                    f'{list(x.sym_path.keys)!r}), which does not store it'))
+      continue
+    for clause, detail in TM.tree_ok([x]):
+      out.append(('operand-' + clause,
+                  f'offered {type(x).__name__}, not stored in the forest: '
+                  + detail.replace('root0', 'operand')))
+  return out
+
+
 # ------------------------------------------------------------- building -----
 
 class CallBuilder:
@@ -140,11 +403,28 @@ class CallBuilder:
     self.problems = []          # (clause, mechanism, detail)
     self.shared = False         # did this call see one object at two places?
     self.uses = {}
+    self.operands = []          # symbolic objects handed to the call
+    self.operand_findings = []  # (clause, detail), filled by `apply_step`
 
   def __call__(self, desc):
-    if not has_ext(desc):
-      return D.build(desc, self.forest)
-    return self.build(desc)
+    v = self.build(desc)
+    note_symbolic(v, self.operands)
+    return v
+
+  def ctor(self, kind, fn, members):
+    """Calls a constructor; when it REJECTS its arguments, the symbolic
+    objects that were offered to it must still be intact trees of their own."""
+    try:
+      return fn()
+    except Exception:
+      if not self.problems:
+        offered = []
+        for m in members:
+          note_symbolic(m, offered)
+        for clause, detail in operand_problems(self.forest, offered,
+                                               self.counters):
+          self.problems.append((clause, f'ctor[{kind}]!rejected', detail))
+      raise
 
   def build(self, desc):
     k = desc[0]
@@ -158,27 +438,30 @@ class CallBuilder:
       return self.memo[tag]
     if k == 'ctor':
       return self.construct(desc[1], desc[2])
-    if not has_ext(desc):
-      return D.build(desc, self.forest)
+    # Same values as `desc.build`; `made` (the check of the value a
+    # constructor returned) only for descriptions with shared members.
+    made = self.made if has_ext(desc) else (lambda kind, v: v)
     if k in ('D', 'd'):
       items = {kk: self.build(vv) for kk, vv in desc[1]}
       if k == 'd':
         return items
       opts = desc[2] if len(desc) > 2 else {}
-      return self.made('Dict/typed' if opts.get('value_spec') else 'Dict',
-                       pg.Dict(items, **opts))
+      kind = 'Dict/typed' if opts.get('value_spec') else 'Dict'
+      return made(kind, self.ctor(kind, lambda: pg.Dict(items, **opts),
+                                  items.values()))
     if k in ('L', 'l'):
       items = [self.build(vv) for vv in desc[1]]
       if k == 'l':
         return items
       opts = desc[2] if len(desc) > 2 else {}
-      return self.made('List/typed' if opts.get('value_spec') else 'List',
-                       pg.List(items, **opts))
+      kind = 'List/typed' if opts.get('value_spec') else 'List'
+      return made(kind, self.ctor(kind, lambda: pg.List(items, **opts), items))
     if k == 't':
       return tuple(self.build(vv) for vv in desc[1])
     if k == 'O':
       cls = getattr(M, desc[1])
-      return self.made('Object', cls(**{kk: self.build(vv) for kk, vv in desc[2]}))
+      kw = {kk: self.build(vv) for kk, vv in desc[2]}
+      return made('Object', self.ctor('Object', lambda: cls(**kw), kw.values()))
     if k == 'ins':
       return pg.Insertion(self.build(desc[1]))
     return D.build(desc, self.forest)
@@ -187,35 +470,40 @@ class CallBuilder:
     k = desc[0]
     if k == 'D':
       pairs = [(kk, self.build(vv)) for kk, vv in desc[1]]
+      vals = [vv for _, vv in pairs]
       if form == 'kwargs':
-        v = pg.Dict(**dict(pairs))
+        fn = lambda: pg.Dict(**dict(pairs))
       elif form == 'pairs':
-        v = pg.Dict(pairs)
+        fn = lambda: pg.Dict(pairs)
       elif form == 'dict+kwargs':
-        v = pg.Dict(dict(pairs[:1]), **dict(pairs[1:]))
+        fn = lambda: pg.Dict(dict(pairs[:1]), **dict(pairs[1:]))
       elif form == 'from_json':
-        return self.made('from_json:Dict', pg.from_json(dict(pairs)))
+        return self.made('from_json:Dict', self.ctor(
+            'from_json:Dict', lambda: pg.from_json(dict(pairs)), vals))
       else:
-        v = pg.Dict(dict(pairs))
-      return self.made('Dict', v)
+        fn = lambda: pg.Dict(dict(pairs))
+      return self.made('Dict', self.ctor('Dict', fn, vals))
     if k == 'L':
       items = [self.build(vv) for vv in desc[1]]
       if form == 'from_json':
-        return self.made('from_json:List', pg.from_json(items))
-      return self.made('List', pg.List(items))
+        return self.made('from_json:List', self.ctor(
+            'from_json:List', lambda: pg.from_json(items), items))
+      return self.made('List', self.ctor('List', lambda: pg.List(items), items))
     if k == 'O':
       cls = getattr(M, desc[1])
       pairs = [(kk, self.build(vv)) for kk, vv in desc[2]]
+      vals = [vv for _, vv in pairs]
       if form == 'positional':
-        v = cls(*[vv for _, vv in pairs])
+        fn = lambda: cls(*vals)
       elif form == 'partial':
-        v = cls.partial(**dict(pairs))
+        fn = lambda: cls.partial(**dict(pairs))
       elif form == 'from_json':
-        return self.made('from_json:Object', pg.from_json(
-            dict([('_type', cls.__type_name__)] + pairs)))
+        return self.made('from_json:Object', self.ctor(
+            'from_json:Object', lambda: pg.from_json(
+                dict([('_type', cls.__type_name__)] + pairs)), vals))
       else:
-        v = cls(**dict(pairs))
-      return self.made('Object', v)
+        fn = lambda: cls(**dict(pairs))
+      return self.made('Object', self.ctor('Object', fn, vals))
     raise ValueError(f'harness: no construction form {form!r} for {k!r}')
 
   def made(self, kind, value):
@@ -246,9 +534,11 @@ class AliasValueSource(H.ValueSource):
   """
 
   def __init__(self, forest, target, p_same=0.3, p_inject=0.2, p_form=0.25,
-               p_twin=0.15, **kw):
+               p_twin=0.15, p_prebuilt=0.5, p_hostile=0.12, **kw):
     super().__init__(forest, target, **kw)
     self.p_twin = p_twin
+    self.p_prebuilt, self.p_hostile = p_prebuilt, p_hostile
+    self.n_prebuilt = self.n_hostile = 0
     self.p_same, self.p_inject, self.p_form = p_same, p_inject, p_form
     self.given = []
     self.ntags = 0
@@ -274,7 +564,21 @@ class AliasValueSource(H.ValueSource):
       return self.share(rng.choice(self.given))
     d = super().__call__(rng, node, key)
     if typed and d[0] == 'v':
+      if isinstance(d[1], (dict, list)) and rng.random() < self.p_prebuilt:
+        # The same value as a PRE-BUILT symbolic container (the caller keeps a
+        # tree of its own if the slot refuses it), valid or with one member at
+        # some depth that the slot's spec rejects.
+        v = d[1]
+        if rng.random() < 0.5:
+          try:
+            v = corrupt(rng, field.value, v) or v
+          except Exception:  # pylint: disable=broad-except
+            pass
+        self.n_prebuilt += 1
+        return symbolize(rng, v)
       return d
+    if d[0] in CONTAINER_KINDS and rng.random() < self.p_hostile:
+      self.n_hostile += hostilize_desc(rng, d, 0.3)
     if d[0] in CONTAINER_KINDS and rng.random() < self.p_inject:
       inject_sharing(rng, d, self)
     if d[0] in SYMBOLIC_KINDS and rng.random() < self.p_form:
@@ -501,8 +805,53 @@ class _:
   # A schema-bound container (object with typed dict / list fields, pg.Dict /
   # pg.List with a value spec) whose Any slots receive the operands.
   def gen(g, _):
-    return {'v': holder_desc(g.rng, sub=lambda: literal(g, 1))}
+    d = holder_desc(g.rng, sub=lambda: literal(g, 1))
+    if g.rng.random() < 0.5:
+      # The members are handed over as PRE-BUILT pg.Dict / pg.List values;
+      # sometimes one of them is not acceptable (the constructor refuses).
+      prebuild_members(g.rng, d, bad=g.rng.random() < 0.4)
+    return {'v': d}
   def run(_, a, B): return B(a['v'])
+
+
+def prebuild_members(rng, desc, bad=False, p=0.6):
+  """Rewrites (in place) plain dict / list members of a typed holder
+  description into pre-built symbolic ones; with `bad`, one typed member is
+  made unacceptable (a required key dropped, an undeclared key added, a wrong
+  leaf type)."""
+  mem, paired = members(desc)
+  if mem is None:
+    return
+  typed_dicts = []
+  def walk(d, typed):
+    m, pr = members(d)
+    if m is None:
+      return
+    if d[0] in ('d', 'l') and rng.random() < p:
+      d[0] = d[0].upper()
+    if typed and d[0] in ('d', 'D'):
+      typed_dicts.append(d)
+    for e in m:
+      sub = e[1] if pr else e
+      # Any slots ('any', 'payload', 'free', members of 'elems' / 'tags' /
+      # 'vs' / 'sub') are not typed below.
+      walk(sub, typed and (not pr or e[0] in ('cfg', 'rows', 'opts')))
+  for e in mem:
+    walk(e[1] if paired else e, desc[0] != 'O' or e[0] in ('cfg', 'rows'))
+  if bad and typed_dicts:
+    d = rng.choice(typed_dicts)
+    r = rng.random()
+    if r < 0.35 and d[1]:
+      del d[1][rng.randrange(len(d[1]))]          # maybe a required key
+    elif r < 0.7:
+      d[1].append(['__undeclared__', ['v', 1]])
+    elif d[1]:
+      rng.choice(d[1])[1] = ['L', [['D', []]]] if rng.random() < 0.5 else ['v', 1.5]
+  desc_top = desc
+  if desc_top[0] in ('D', 'L') and len(desc_top) > 2 and bad and rng.random() < 0.3:
+    m, pr = members(desc_top)
+    if not pr:
+      m.extend([['D', [['id', ['v', 1]]]] for _ in range(4)])   # max_size
 
 
 def ctor_kind(step):
@@ -518,7 +867,8 @@ def ctor_kind(step):
 # ------------------------------------------------------------- steps --------
 
 def gen_step(rng, forest, p_ctor=0.07, effects=('mutate', 'new', 'flag'),
-             p_scope=None, max_nodes=60, value_source_kwargs=None):
+             p_scope=None, max_nodes=60, value_source_kwargs=None,
+             p_hostile=0.5):
   """Like `history.gen_step`, with `AliasValueSource` operands and the
   constructor operations."""
   nodes = H.all_nodes(forest)
@@ -534,7 +884,9 @@ def gen_step(rng, forest, p_ctor=0.07, effects=('mutate', 'new', 'flag'),
     sc = [name for name, p in p_scope.items()
           if name != 'writable' and rng.random() < p / 2]
     return {'op': o.name, 'at': [0, []], 'args': args, 'scopes': sc,
-            'shared': vs.n_shared}
+            'shared': vs.n_shared, 'hostile': vs.n_hostile + hostilize_desc(
+                rng, args['v'], 0.25 if rng.random() < p_hostile else 0),
+            'prebuilt': vs.n_prebuilt}
   for _ in range(20):
     ridx, keys, node = rng.choice(nodes)
     cands = O.ops_for(node, effects)
@@ -547,9 +899,13 @@ def gen_step(rng, forest, p_ctor=0.07, effects=('mutate', 'new', 'flag'),
     args = o.gen(O.GenEnv(rng, vs, forest), node)
     if args is None:
       continue
+    hostile = vs.n_hostile
+    if rng.random() < p_hostile:
+      hostile += hostilize_args(rng, node, o.name, args)
     sc = [name for name, p in p_scope.items() if rng.random() < p]
     return {'op': o.name, 'at': [ridx, keys], 'args': args, 'scopes': sc,
-            'shared': vs.n_shared}
+            'shared': vs.n_shared, 'hostile': hostile,
+            'prebuilt': vs.n_prebuilt}
   return None
 
 
@@ -586,6 +942,10 @@ def apply_step(forest, seen, step, counters=None):
   if isinstance(result, pg.Symbolic) and seen is not None:
     seen.setdefault(id(result), result)
   problems = TM.tree_ok(forest, seen, counters)
+  if not problems and not B.problems and B.operands:
+    if counters is not None and status == 'raise':
+      counters['rejected_steps_with_symbolic_operand'] += 1
+    B.operand_findings = operand_problems(forest, B.operands, counters)
   return status, result, problems, B
 
 
@@ -644,7 +1004,7 @@ def holder_desc(rng, depth=2, sub=None):
   return ['L', holder_rows(rng, sub), {'value_spec': M.holder_rows_spec()}]
 
 
-def make_forest(rng, p_holder=0.4, **kw):
+def make_forest(rng, p_holder=0.4, p_hostile=0.4, **kw):
   """`history.make_forest` descriptions, into which a typed holder is grafted
   (as a member of an untyped container, or as a further root)."""
   n_roots = rng.choice([1, 1, 2, 3])
@@ -676,4 +1036,7 @@ def make_forest(rng, p_holder=0.4, **kw):
         placed = add_slot(rng, o, h)
     if not placed:
       descs.append(h)
+  if rng.random() < p_hostile:
+    for d in descs:
+      hostilize_desc(rng, d, rng.choice([0.15, 0.3, 0.6]))
   return descs, [D.build(d) for d in descs]
